@@ -11,9 +11,12 @@ from .fsworld import TypeDef, o
 
 G = W.G
 CWD = '/tmp'
-# spellings of one and the same directory <cwd>/bindings
-ENV_SPELLINGS = [None, 'bindings', './bindings/', '{CWD}/bindings', 'x/../bindings', './/bindings/.']
-TO_SPELLINGS = ['./bindings', 'bindings/', '{CWD}/bindings', './x/../bindings']
+# spellings of one and the same directory <cwd>/bindings: prefix x middle x suffix (each a solver-decided choice), plus "unset"
+PREFIXES = ['', './', '{CWD}/']
+MIDDLES = ['', 'x/../', './/', 'x/y/../../']
+SUFFIXES = ['', '/', '/.']
+ENV_SPELLINGS = [None] + [p + m + 'bindings' + s for p in PREFIXES for m in MIDDLES for s in SUFFIXES]
+TO_SPELLINGS = ['./bindings', 'bindings/', '{CWD}/bindings', './x/../bindings', '{CWD}/x/../bindings/']
 ENTRIES = ['export', 'export_all', 'export_all_to']
 
 
@@ -126,12 +129,8 @@ def native_check(v):
     if v['init'] == 'previous':
         for f, c in W.expected_fs(CWD, tdefs, {0: '/tmp/bindings', 1: '/tmp/bindings', 2: '/tmp/bindings'}, v['cfg'] == 'esm').items():
             pre.append((0, 'mkfile', 'bindings/' + f.rsplit('/', 1)[1], c))
-    # absolute spellings are re-rooted below the scratch directory by the helper (cwd = scratch): use a placeholder the helper cannot
-    # know, so substitute after the scratch dir is known -> done through a relative equivalent
-    def reroot(s):
-        return None if s is None else s.replace('{CWD}/', './')
-    steps = [(e, t, reroot(v['to']) if e == 'export_all_to' else None) for e, t, _ in v['steps']]
-    results, files = W.native_history(v['cfg'], None, tdefs, steps, reroot(v['env']), pre)
+    steps = [(e, t, v['to'] if e == 'export_all_to' else None) for e, t, _ in v['steps']]
+    results, files = W.native_history(v['cfg'], None, tdefs, steps, v['env'], pre)
     exported = {}
     why = None
     for (entry, t, _), r in zip(steps, results):
@@ -175,16 +174,16 @@ def main():
     if quick:
         for e in range(3):
             for t in range(4):
-                items.append(('plain', 2, ENV_SPELLINGS[:4], TO_SPELLINGS[:2], ['empty', 'stale'], (e, t)))
+                items.append(('plain', 2, ENV_SPELLINGS, TO_SPELLINGS[:3] if e == 2 else TO_SPELLINGS[3:], ['empty', 'stale'], (e, t)))
         for e in range(3):
             for t in (0, 1, 2):
-                items.append(('plain', 3, [None, './bindings/'], ['bindings/'], ['empty'], (e, t)))
+                items.append(('plain', 3, [None, './bindings/', '{CWD}/x/../bindings'], ['bindings/'], ['empty'], (e, t)))
     else:
         for cfg in ('plain', 'esm'):
             for e in range(3):
                 for t in range(4):
                     items.append((cfg, 2, ENV_SPELLINGS, TO_SPELLINGS, ['empty', 'stale', 'previous'], (e, t)))
-                    items.append((cfg, 3, ENV_SPELLINGS[:3], TO_SPELLINGS[:2], ['empty', 'stale'], (e, t)))
+                    items.append((cfg, 3, [None, './bindings/', '{CWD}/x/../bindings', 'x/y/../../bindings/.'], TO_SPELLINGS[:2] + TO_SPELLINGS[4:], ['empty', 'stale'], (e, t)))
     rep.bounds = {'universe': 'A, B -> s.ts (B visits the non-exportable D); C -> C.ts depends on A and D; D not exportable',
                   'history_length': sorted({i[1] for i in items}), 'entry_points': ENTRIES,
                   'TS_RS_EXPORT_DIR spellings of <cwd>/bindings': ENV_SPELLINGS, 'export_all_to spellings': TO_SPELLINGS,
